@@ -7,8 +7,8 @@ import (
 	"hash/fnv"
 	"math/rand"
 	"os"
-	"strconv"
 	"sort"
+	"strconv"
 	"strings"
 	"sync/atomic"
 
